@@ -1585,6 +1585,23 @@ fn open_flow_slot(sp: &SlotSpec, r: usize, a: usize, addr: SocketAddr, req: &str
         if !okk || wait_seen(req, T_IO).as_deref() != Some("old") {
             return Err("the request head did not reach the old worker's backend".into());
         }
+        // the settings are exchanged now: the parked client writes nothing later, while it reads the end of the
+        // exchange (a write that reaches the worker after its close would reset the connection under the data)
+        let t0 = Instant::now();
+        loop {
+            match c.read_frame(Duration::from_millis(200)) {
+                Some(f) if f.ty == h2::SETTINGS && f.flags & h2::FLAG_ACK == 0 => {
+                    c.send(&Frame::settings_ack());
+                    break;
+                }
+                Some(_) => {}
+                None if c.eof => return Err("connection closed before the server's settings".into()),
+                None => {}
+            }
+            if t0.elapsed() >= T_IO {
+                return Err("no settings from the server".into());
+            }
+        }
         ctl.log(open_ev("h2Await"));
         return Ok(Conn::H2(Box::new(c)));
     }
@@ -1696,9 +1713,6 @@ fn flow_read_out(s: &mut Slot, to: Duration, r: usize, ctl: &mut Ctl) -> (String
                     continue;
                 };
                 match f.ty {
-                    h2::SETTINGS if f.flags & h2::FLAG_ACK == 0 => {
-                        c.send(&Frame::settings_ack());
-                    }
                     h2::HEADERS if f.sid == 1 => {
                         for (k, v) in c.hp.decode(&f.payload).unwrap_or_default() {
                             if k == b":status" {
